@@ -233,6 +233,18 @@ func (r *Real) Exec(o model.Op) (panicked bool, ret any, pmsg any) {
 		return false, nil, nil
 	}
 	switch o.Op {
+	case "Text":
+		switch a := r.Fwd[o.R].(type) {
+		case at.List:
+			_ = a.String()
+			a.FormatString(2)
+			a.FormatString(0)
+		case at.Object:
+			_ = a.String()
+			a.FormatString(2)
+			a.FormatString(0)
+		}
+		return false, nil, nil
 	case "IndexOf":
 		return false, r.Fwd[o.R].(at.List).IndexOf(r.arg(o.V)), nil
 	case "Contains":
